@@ -229,6 +229,75 @@ type c06World struct {
 
 	lastMet      c06MetVals // metric values after the previous checked store
 	lastMetValid bool
+
+	// device-fault runs: read/write errors of the index device while the map
+	// operation itself runs (never during the oracle's own lookups)
+	df *sim.DiskFaults
+}
+
+func (w *c06World) ioErrs() int {
+	if w.disk == nil {
+		return 0
+	}
+	return w.disk.ReadErrs + w.disk.WriteErrs
+}
+
+func (w *c06World) faultsOn(on bool) {
+	if w.disk != nil && w.df != nil {
+		if on {
+			w.disk.Faults = w.df
+		} else {
+			w.disk.Faults = nil
+		}
+	}
+}
+
+// rebaseline re-reads every key after an operation that failed with an I/O
+// error: a failed store may have lost what it had in flight (reported, not
+// silent), so only soundness is required of what lookups return now.
+func (w *c06World) rebaseline() {
+	w.discards++ // (no longer "newest or nothing": relaxed like after a reported discard)
+	w.lastMetValid = false
+	for j := range w.keys {
+		r, ok := w.lookup(j)
+		if !ok {
+			return
+		}
+		w.obs[j] = r
+	}
+}
+
+// getFaulted: a lookup under device faults returns what a fault-free lookup
+// returns, or an error that is not NOT_FOUND.
+func (w *c06World) getFaulted(k int) {
+	e0 := w.ioErrs()
+	w.faultsOn(true)
+	loc, err := w.klm.Get(w.keys[k])
+	w.faultsOn(false)
+	fired := w.ioErrs() > e0
+	if err != nil && Code(err) != codes.NotFound {
+		if !fired {
+			w.c.Fail("unexpected-error", "Get(key %d) returned %v although no I/O fault was injected %s", k, err, w.desc())
+			return
+		}
+		w.c.Count("probe_get_failed_on_io_error", 1)
+		return
+	}
+	var r c06Res
+	if err == nil {
+		r = c06Res{true, c06Loc{Abs: w.rs.released + loc.BlockIndex, Off: loc.OffsetBytes, Size: loc.SizeBytes}}
+	}
+	if r != w.obs[k] {
+		what := "no I/O fault was injected"
+		if fired {
+			what = "an I/O error of the index device was swallowed"
+		}
+		w.c.Fail("io-error-changed-lookup", "Get(key %d) = %s although a fault-free lookup returns %s: %s %s", k, r, w.obs[k], what, w.desc())
+		return
+	}
+	if fired {
+		w.c.Count("probe_get_correct_despite_io_error", 1)
+	}
 }
 
 type c06HistOp struct {
@@ -441,12 +510,26 @@ func (w *c06World) put(k int, l c06Loc, checked bool) {
 	}
 	w.lastMetValid = false
 	p0 := w.arr.puts
+	e0 := w.ioErrs()
+	w.faultsOn(true)
 	err := w.klm.Put(w.keys[k], w.toLocation(l))
+	w.faultsOn(false)
 	if !w.isStored(k, l) {
 		w.stored[k] = append(w.stored[k], l)
 	}
 	if !checked || w.c.Failed() {
 		return
+	}
+	if w.ioErrs() > e0 {
+		w.c.Count("fault_index_device_io_error", w.ioErrs()-e0)
+		if err != nil {
+			// reported to the caller: nothing silent about it
+			w.c.Count("probe_put_failed_on_io_error", 1)
+			w.rebaseline()
+			return
+		}
+		// the store claims success: the transition oracle applies in full
+		w.c.Count("probe_put_succeeded_despite_io_error", 1)
 	}
 	if err != nil {
 		w.c.Fail("unexpected-error", "Put(key %d, %s) returned %v although no I/O fault was injected %s", k, l, err, w.desc())
@@ -692,6 +775,10 @@ func c06Random(c *sim.RunCtx) {
 	c.Sim(sim.SimOpts{MaxSteps: 1000000}, func(s *rt.Sched) {
 		c.Note("case %s maxlive=%d ops=%d", cfg, maxLive, nOps)
 		w := newC06World(c, cfg, keys, func() uint64 { return c06U64(t) })
+		if cfg.Dev && t.Chance(1, 3) {
+			w.df = &sim.DiskFaults{ReadErr: []int{20, 60}[t.Choose(2)], WriteErr: []int{0, 30}[t.Choose(2)], T: c.T.Fault}
+			c.Count("c06_runs_dev_faults", 1)
+		}
 		stride := int64(1)
 		if cfg.BigOff {
 			stride = 0x100000001
@@ -702,7 +789,9 @@ func c06Random(c *sim.RunCtx) {
 		}
 		lastKey := 0
 		for i := 0; i < nOps && !c.Failed(); i++ {
-			switch t.Pick(14, 2, 1, 1) {
+			switch t.Pick(14, 2, 1, 1, 3) {
+			case 4: // a lookup, under device faults in the fault runs
+				w.getFaulted(t.Choose(cfg.Keys))
 			case 0: // store
 				k := t.Choose(cfg.Keys)
 				if t.Chance(1, 6) {
